@@ -105,7 +105,8 @@ inductive Axis
   | followingSibling | precedingSibling
 deriving DecidableEq, Repr, Inhabited
 
-inductive NodeTest | name (n : String) | star | text | node | comment | pi
+/-- `piNamed t` = `processing-instruction('t')`, `nsStar p` = the name test `p:*` -/
+inductive NodeTest | name (n : String) | star | text | node | comment | pi | piNamed (t : String) | nsStar (pfx : String)
 deriving DecidableEq, Repr, Inhabited
 
 inductive Expr
@@ -367,6 +368,9 @@ def testNode (d : Doc) (ax : Axis) (t : NodeTest) (i : Nat) : Bool :=
   | .node => true
   | .comment => n.kind = .comment
   | .pi => n.kind = .pi
+  | .piNamed t => n.kind = .pi ∧ n.name = t
+  -- `p:*`: any node of the principal type in the namespace the stylesheet binds `p` to
+  | .nsStar p => decide (n.kind = principal) && (match stylesheetNs.lookup p with | some u => n.uri == u | none => false)
 
 def insertSorted (x : Nat) : List Nat → List Nat
   | [] => [x]
@@ -709,15 +713,31 @@ def normalize (evs : List REv) : List REv := mergeText (placeAttrs [] (dropEmpty
 
 /-! ### patterns and rule choice (XSLT §5.2, §5.5) -/
 
-/-- default priority in halves -/
+/-- §5.5 default priority, in **quarters**: `child::` / `attribute::` with a QName or `processing-instruction(Literal)` 0;
+`NCName:*` −0.25; any other single node test −0.5; every other pattern 0.5 -/
 def defaultPrio : Expr → Int
   | .step .ctx ax t [] =>
     if ax = .child ∨ ax = .attribute then
       match t with
       | .name _ => 0
-      | _ => -1
-    else 1
-  | _ => 1
+      | .piNamed _ => 0
+      | .nsStar _ => -1
+      | _ => -2
+    else 2
+  | _ => 2
+
+/-- the table of §5.5, in quarters: `processing-instruction('t')` 0, `a` 0, `p:*` −0.25, `processing-instruction()` −0.5,
+`*[1]` 0.5, `a/b` 0.5 -/
+example : [defaultPrio (.step .ctx .child (.piNamed "t") []), defaultPrio (.step .ctx .child (.name "a") []),
+    defaultPrio (.step .ctx .attribute (.nsStar "p") []), defaultPrio (.step .ctx .child .pi []),
+    defaultPrio (.step .ctx .child .star [.num 1]), defaultPrio (.step (.step .ctx .child (.name "a") []) .child (.name "b") [])]
+    = [0, 0, -1, -2, 2, 2] := by decide
+
+/-- priority of a rule for one alternative of its pattern, in quarters (an explicit `priority` attribute is kept in halves) -/
+def rulePrio (t : Option Int) (p : Expr) : Int :=
+  match t with
+  | some h => 2 * h
+  | none => defaultPrio p
 
 /-- §5.2: a node matches a pattern iff some ancestor-or-self, taken as context, selects it -/
 def matchesPat (d : Doc) (fuel : Nat) (p : Expr) (n : Nat) (keys : List KeyDecl := []) : Bool :=
@@ -734,7 +754,7 @@ def chooseTemplateIdx (ss : Stylesheet) (d : Doc) (fuel : Nat) (n : Nat) (mode :
   let cands : List (Nat × Int × Nat × Template) :=
     (ss.templates.zipIdx).flatMap fun (t, idx) =>
       if t.mode ≠ mode ∨ (match below with | some p => decide (t.prec ≥ p.1 ∨ t.prec < p.2) | none => false) = true then [] else
-      (t.pats.filter fun p => matchesPat d fuel p n ss.keys).map fun p => (t.prec, t.prio.getD (defaultPrio p), idx, t)
+      (t.pats.filter fun p => matchesPat d fuel p n ss.keys).map fun p => (t.prec, rulePrio t.prio p, idx, t)
   -- highest import precedence, then highest priority, then last in the stylesheet
   let best := cands.foldl (fun (acc : Option (Nat × Int × Nat × Template)) x =>
     match acc with
